@@ -274,8 +274,24 @@ def nopanicH : Handler := fun inp impl => do
         (match (w.getObjValAs? String "what").toOption with | some s => ":" ++ (s.takeWhile (· != ':')).toString | none => "")
     | .error _ => ""
   let modelled := kind == "text" && has impl "oracle" && !has inp "amp" && !has inp "hex"
+  -- round 4: hostile custom-backend documents are compared with the model of NewTableCustom on what Go decoded
+  let jsonModelled := kind == "json" && outcome != "?" && ((has impl "defs" && has impl "oracle") || has impl "nullDoc")
   let (m, agree, cls) :=
-    if modelled then
+    if jsonModelled then
+      if has impl "nullDoc" then (Json.mkObj [("outcome", "error")], outcome == "error" || outcome == "panic", "")
+      else
+        let step := Json.mkObj [("decoded", Json.mkObj [("defs", (impl.getObjVal? "defs").toOption.getD (Json.arr #[]))])]
+        match pollOf step with
+        | .ok (.defs ds) =>
+          (match newTable (envOf (objOr impl "oracle")) ds with
+           | .ok t =>
+             let sk := skeletonJson t
+             let ascii := ds.all (fun d => (d.service ++ d.src ++ d.dst).all (fun c => c.toNat < 128 && c.toNat > 0))
+             let skOk := !ascii || !has impl "skeleton" || (impl.getObjVal? "skeleton").toOption == some sk
+             (Json.mkObj [("outcome", "table"), ("skeleton", sk)], (outcome == "table" && skOk) || outcome == "panic", "")
+           | .error _ => (Json.mkObj [("outcome", "error")], outcome == "error" || outcome == "panic", ""))
+        | _ => (Json.null, true, "/outside-model")
+    else if modelled then
       let o := objOr impl "oracle"
       let text := getStrD inp "text"
       let res := loadTable (envOf o) (pfOf o) text
